@@ -283,6 +283,48 @@ func genRank1(r, c int) M {
 	return m
 }
 
+// genDiagSigns is (rectangular) diagonal with entries of alternating sign and a
+// negative last entry: 1, -2, 3, ..., -k.
+func genDiagSigns(r, c int) M {
+	m := newM(r, c)
+	k := min(r, c)
+	for i := 0; i < k; i++ {
+		v := float64(i + 1)
+		if i%2 == 1 || i == k-1 {
+			v = -v
+		}
+		m.set(i, i, v)
+	}
+	return m
+}
+
+// genDiagNegLast is diag(1, 2, ..., k-1, -k): only the last entry is negative.
+func genDiagNegLast(r, c int) M {
+	m := newM(r, c)
+	k := min(r, c)
+	for i := 0; i < k; i++ {
+		m.set(i, i, float64(i+1))
+	}
+	if k > 0 {
+		m.set(k-1, k-1, -float64(k))
+	}
+	return m
+}
+
+// genBidiagZeros is upper bidiagonal with mixed-sign diagonal (negative last
+// entry) and every second off-diagonal entry zero (it splits into blocks, the
+// last of which is a 1×1 or diagonal block).
+func genBidiagZeros(r, c int) M {
+	m := genDiagSigns(r, c)
+	k := min(r, c)
+	for i := 0; i+1 < c && i < k; i++ {
+		if i%2 == 0 && i+2 < k {
+			m.set(i, i+1, 1)
+		}
+	}
+	return m
+}
+
 var genFamilies = []family{
 	{name: "int", gen: genInt, scale: 1},
 	{name: "graded", gen: genGraded, scale: 1},
@@ -293,6 +335,9 @@ var genFamilies = []family{
 	{name: "eye", gen: eyeRC, scale: 1},
 	{name: "orthdiag", gen: genOrthDiag, scale: 1},
 	{name: "rank1", gen: genRank1, scale: 1},
+	{name: "diagsigns", gen: genDiagSigns, scale: 1},
+	{name: "diagneglast", gen: genDiagNegLast, scale: 1},
+	{name: "bidiagzeros", gen: genBidiagZeros, scale: 1},
 	{name: "big", gen: genInt, scale: bigScale},
 	{name: "small", gen: genInt, scale: smallScale},
 }
